@@ -40,6 +40,8 @@ type Run struct {
 	DumpDir   string
 	MapOrder  bool
 	ExtraCheck bool
+	MaxViolations int  // stop exploring after this many counterexamples (0 = explore everything)
+	StoppedEarly  bool
 
 	mu          sync.Mutex
 	queue       [][]int
@@ -359,6 +361,11 @@ func (r *Run) Explore() {
 				if r.Paths > r.MaxPaths {
 					r.stop = true
 					r.bounded = true
+				}
+				// enough counterexamples to report: the verdict is "violated" whatever the remaining paths say
+				if r.MaxViolations > 0 && len(r.Violations) >= r.MaxViolations {
+					r.stop = true
+					r.StoppedEarly = true
 				}
 				r.mu.Unlock()
 				r.runPath(s, p)
